@@ -29,6 +29,7 @@ fn main() {
         "C04" => errtree::run(&args, errtree::Mode::Algebra),
         "C03" => errtree::run(&args, errtree::Mode::Spans),
         "C05" => c05::run(&args),
+        "C06" if args.extra.get("part").map(|s| s.as_str()) == Some("malformed-values") => c10::run_malformed(&args),
         "C06" => c06::run(&args),
         "C07" => c07::run(&args),
         "C10" => c10::run(&args),
